@@ -48,6 +48,7 @@ type SvcSpec struct {
 	Ups     []string `json:"ups"`
 	Weights bool     `json:"weights"` // request carries explicit default weights (as agents do)
 	Index   uint64   `json:"index"`   // supplied ModifyIndex (txn cas verbs)
+	TagVIP  int      `json:"tag_vip,omitempty"` // k > 0: the request itself carries TaggedAddresses["consul-virtual"] = 240.0.0.k (wide stream only)
 }
 
 type CheckReq struct {
@@ -332,6 +333,10 @@ func nodeService(s *SvcSpec) *structs.NodeService {
 	}
 	if s.Weights {
 		ns.Weights = &structs.Weights{Passing: 1, Warning: 1}
+	}
+	if s.TagVIP > 0 {
+		ns.TaggedAddresses = map[string]structs.ServiceAddress{
+			structs.TaggedAddressVirtualIP: {Address: fmt.Sprintf("240.0.0.%d", s.TagVIP), Port: s.Port}}
 	}
 	return ns
 }
@@ -1008,7 +1013,13 @@ func (im *impl) oracle(step int, all *Dump) []OracleFail {
 			failRows("kindnames", sub, what, rows)
 		}
 		if sub, what := setDiff("kind-service-names", split(wantKN, true), split(gotKN, true)); sub != "" {
-			fail("kindnames", "destination-"+sub, what)
+			var rows []string
+			for k := range split(gotKN, true) {
+				if !wantKN[k] {
+					rows = append(rows, k)
+				}
+			}
+			failRows("kindnames", "destination-"+sub, what, rows)
 		}
 	}
 	// the query API agrees with the table
@@ -1125,8 +1136,10 @@ func (im *impl) oracle(step int, all *Dump) []OracleFail {
 				}
 			case !hasW && hasG:
 				switch {
-				case g == "ingress-gateway|true|-" && destConf(d, svc) && !any:
-					shape = "extra:ingress-wildcard-destination" // written by the config-write path only
+				case g == "ingress-gateway|true|-" && destConf(d, svc) && !connect:
+					// written by the config-write path only (whether or not the destination's name also has
+					// non-connect instances: the wide stream registers such names)
+					shape = "extra:ingress-wildcard-destination"
 				case g == "terminating-gateway|true|-" && any && nonNative && !typical:
 					shape = "extra:terminating-wildcard-non-typical-name" // kept/created by the registration path only
 				case strings.Contains(g, "|true|") && !any && !destConf(d, svc):
@@ -1140,6 +1153,13 @@ func (im *impl) oracle(step int, all *Dump) []OracleFail {
 			default:
 				if strings.HasSuffix(g, "|destination") && strings.TrimSuffix(g, "destination") == strings.TrimSuffix(w, "-") && !destConf(d, svc) {
 					shape = "differ:stale-destination-kind" // known: only after a Destination was dropped by an update
+				}
+				// a destination whose name ALSO has instances (wide stream only): the gateway-entry write stamps its
+				// wildcard row "destination", the service-defaults write and the registration stamp it "service"
+				// and neither refreshes it when the instances come or go
+				wp, gp := strings.Split(w, "|"), strings.Split(g, "|")
+				if destConf(d, svc) && wp[0] == gp[0] && wp[1] == gp[1] && wp[2] != gp[2] {
+					shape = "differ:kind-of-destination-with-instances"
 				}
 			}
 			groups[shape] = append(groups[shape], fmt.Sprintf("%s: want %q got %q", k, w, g))
@@ -1337,6 +1357,18 @@ func (im *impl) oracle(step int, all *Dump) []OracleFail {
 			fail("vip-advertised", "api-VirtualIPForService", fmt.Sprintf("%s: %q vs %d (%v)", v.Service, got, v.IP, err))
 		}
 	}
+	// a manual address inside the automatic range that equals the automatic address of ANOTHER service
+	for _, v := range all.VIPs {
+		for _, m := range v.Manual {
+			ip := net.ParseIP(m)
+			if ip == nil || ip.To4() == nil || ip.To4()[0] < 240 {
+				continue
+			}
+			if o, taken := byIP[ipNum(ip)-vipBase]; taken && o != v.Peer+":"+v.Service {
+				failRows("vip-unique", "manual-ip-equals-auto-ip-of-other-service", fmt.Sprintf("%s has the manual address %s, the automatic address of %s", v.Peer+":"+v.Service, m, o), []string{m})
+			}
+		}
+	}
 	for f := range freeSet {
 		if f > counter || f <= 0 {
 			fail("vip-unique", "free-ip-beyond-counter", fmt.Sprint(f))
@@ -1349,7 +1381,7 @@ func (im *impl) oracle(step int, all *Dump) []OracleFail {
 		}
 		n, ok := connectName(s)
 		if !ok {
-			fail("vip-advertised", "non-connect-instance-advertises", s.Node+"/"+s.ID)
+			failRows("vip-advertised", "non-connect-instance-advertises", s.Node+"/"+s.ID, []string{s.Peer + ":" + lc(s.Node+"/"+s.ID)})
 			continue
 		}
 		cur, has := vipOf[s.Peer+"|"+n] // an imported instance advertises the address of (its peer, name)
@@ -1440,12 +1472,15 @@ type tracker struct {
 	staleRefs    map[string]bool // "up|down#node/id": a pair of the OLD definition of an instance redefined in place
 	seenGW       map[string]bool // gateway-services rows seen since the last write of their gateway's config entry
 	imported     map[string]bool // names for which a connect instance IMPORTED from a peer was registered
+	destWithInst map[string]bool   // names that were a service-defaults destination while they had instances (wide stream only)
+	droppedDest  map[string]bool   // names whose service-defaults entry lost its Destination by an update
+	clientVIP    map[string]bool   // ":node/id" of local instances whose last successful write carried its own consul-virtual tagged address
 	staleImp     map[string]uint64 // imported sidecar proxies ("peer:node/id" -> modify index) whose advertised virtual IP lost its assignment while they stayed
 }
 
 func newTracker() *tracker {
 	return &tracker{flags: map[string]bool{}, stale: map[string]uint64{}, oldPairs: map[string]bool{}, oldNames: map[string]bool{},
-		droppedPairs: map[string]bool{}, staleRefs: map[string]bool{}, seenGW: map[string]bool{}, imported: map[string]bool{}, staleImp: map[string]uint64{}}
+		droppedPairs: map[string]bool{}, staleRefs: map[string]bool{}, seenGW: map[string]bool{}, imported: map[string]bool{}, staleImp: map[string]uint64{}, clientVIP: map[string]bool{}, destWithInst: map[string]bool{}, droppedDest: map[string]bool{}}
 }
 
 func (t *tracker) observe(before, after *Dump) {
@@ -1487,6 +1522,13 @@ func (t *tracker) observe(before, after *Dump) {
 	for _, c := range after.Confs {
 		if c.Kind == structs.ServiceDefaults && !c.Dest && destConf(before, c.Name) {
 			t.flags["destination-dropped-by-update"] = true
+			t.droppedDest[c.Name] = true
+		}
+		if c.Kind == structs.ServiceDefaults && c.Dest {
+			if a, _, _, _ := hasInstances(after, c.Name); a {
+				t.destWithInst[c.Name] = true
+				t.flags["destination-with-instances"] = true
+			}
 		}
 		for _, x := range c.Services {
 			if x == "*" {
@@ -1632,6 +1674,12 @@ func (t *tracker) observeCmd(c *Cmd, before *Dump) {
 			t.flags["node-respelled"] = true
 		}
 		spelling[strings.ToLower(node+"/"+sp.ID)] = node
+		if sp.TagVIP > 0 {
+			t.clientVIP[":"+strings.ToLower(node+"/"+sp.ID)] = true
+			t.flags["client-supplied-virtual-address"] = true
+		} else {
+			delete(t.clientVIP, ":"+strings.ToLower(node+"/"+sp.ID))
+		}
 		node = strings.ToLower(node) // instance identity is case-insensitive in the store
 		defer pairsTwice()
 		oldUps := ups[node+"/"+strings.ToLower(sp.ID)]
@@ -1700,6 +1748,7 @@ func (t *tracker) observeCmd(c *Cmd, before *Dump) {
 				delete(cur, k)
 				delete(ups, k)
 				delete(spelling, k)
+				delete(t.clientVIP, ":"+k)
 			}
 		}
 	}
@@ -1719,6 +1768,10 @@ func (t *tracker) observeCmd(c *Cmd, before *Dump) {
 			case o.Kind == "node" && (o.Verb == "delete" || o.Verb == "delete-cas"):
 				remove(o.Node, "")
 			}
+		}
+	case "deregister":
+		if c.CheckID == "" || c.SvcID != "" {
+			remove(c.Node, c.SvcID)
 		}
 	case "conf_set", "conf_delete":
 		// the rows of a gateway are rebuilt when its entry is written: forget what was seen before
@@ -1742,7 +1795,12 @@ func sortedCopy(xs []string) []string {
 func (t *tracker) cause(f *OracleFail) string {
 	switch f.Kind {
 	case "kindnames":
-		if f.Sub == "destination-extra" && t.flags["destination-dropped-by-update"] {
+		if f.Sub == "destination-extra" && len(f.Rows) > 0 {
+			for _, r := range f.Rows {
+				if !t.droppedDest[strings.TrimPrefix(r, "destination|")] {
+					return ""
+				}
+			}
 			return "destination-dropped-by-update"
 		}
 		// a name shared by instances of several kinds is fine by itself (since /repo 0bb54ea).  An unjustified
@@ -1755,6 +1813,11 @@ func (t *tracker) cause(f *OracleFail) string {
 			}
 			return "instance-redefined"
 		}
+	case "vip-unique":
+		if f.Sub == "manual-ip-equals-auto-ip-of-other-service" {
+			return "manual-ip-in-auto-range" // the clause is the finding's shape: nothing else is reported under it
+		}
+		return ""
 	case "usage":
 		// no excluded class (since /repo 10e7cca a rename to or from "consul" is counted correctly)
 		return ""
@@ -1762,6 +1825,11 @@ func (t *tracker) cause(f *OracleFail) string {
 		// no excluded class for local instances: since /repo 8e1bd1c the advertised address of every instance
 		// (sidecar proxies included) must be its service's assignment.  The repair does not cover IMPORTED
 		// sidecar proxies: exactly the instances recorded when their assignment was freed under them.
+		// A request that carries its own consul-virtual tagged address is stored verbatim unless the instance is a
+		// connect instance AND virtual IPs are on: exactly the instances whose last write carried one.
+		if len(f.Rows) == 1 && t.clientVIP[f.Rows[0]] {
+			return "client-supplied-address"
+		}
 		if strings.HasSuffix(f.Sub, ":proxy:imported") && len(f.Rows) == 1 {
 			if _, ok := t.staleImp[f.Rows[0]]; ok {
 				return "imported-proxy-outlived-assignment"
@@ -1823,30 +1891,47 @@ func (t *tracker) cause(f *OracleFail) string {
 			return "wildcard-order"
 		case "extra:ingress-wildcard-destination", "extra:terminating-wildcard-non-typical-name":
 			return "wildcard-order"
+		case "differ:kind-of-destination-with-instances":
+			// only rows of names that were a destination and registered AT THE SAME TIME somewhere in the history
+			for _, r := range f.Rows {
+				if !t.destWithInst[strings.Split(r, "|")[1]] {
+					return ""
+				}
+			}
+			if len(f.Rows) > 0 {
+				return "destination-with-instances"
+			}
 		case "extra:wildcard-row-of-absent-name", "extra:wildcard-row-of-unqualified-name":
-			redefined := len(f.Rows) > 0
-			for _, r := range f.Rows { // only rows of a name of the OLD definition of an instance redefined in place
-				if !t.oldNames[strings.Split(r, "|")[1]] {
-					redefined = false
+			// row by row: every row must be explained by a recorded fact about ITS name -- the name of the OLD
+			// definition of an instance redefined in place, a name an imported connect instance was registered
+			// for, or (absent names only) a name whose entry lost its Destination by an update
+			cause := ""
+			for _, r := range f.Rows {
+				n := strings.Split(r, "|")[1]
+				c := ""
+				switch {
+				case t.oldNames[n]:
+					c = "instance-redefined"
+				case t.imported[n]:
+					c = "imported-instance"
+				case t.droppedDest[n]:
+					c = "destination-dropped-by-update"
+				}
+				if c == "" {
+					return ""
+				}
+				if cause == "" {
+					cause = c
 				}
 			}
-			if redefined {
-				return "instance-redefined"
-			}
-			imp := len(f.Rows) > 0
-			for _, r := range f.Rows { // only rows of a name an imported connect instance was registered for
-				if !t.imported[strings.Split(r, "|")[1]] {
-					imp = false
-				}
-			}
-			if imp {
-				return "imported-instance"
-			}
-			if f.Sub == "extra:wildcard-row-of-absent-name" && t.flags["destination-dropped-by-update"] {
-				return "destination-dropped-by-update"
-			}
+			return cause
 		case "differ:stale-destination-kind":
-			if t.flags["destination-dropped-by-update"] {
+			for _, r := range f.Rows {
+				if !t.droppedDest[strings.Split(r, "|")[1]] {
+					return ""
+				}
+			}
+			if len(f.Rows) > 0 {
 				return "destination-dropped-by-update"
 			}
 		}
@@ -1862,6 +1947,7 @@ type gen struct {
 	idx   uint64
 	mix   string
 	model bool // stay inside the modelled fragment
+	wide  bool   // the wide stream: virtual-IP flag toggled mid-history, destinations that also have instances, manual addresses inside 240.0.0.0/4, requests with their own consul-virtual address
 	peers bool   // the peer stream: some registrations / deregistrations carry a peer name (imported rows)
 	peer  string // the peer of the command being generated ("" = local)
 }
@@ -1932,6 +2018,9 @@ func (g *gen) svcSpec(node string) *SvcSpec {
 			if (s.Kind == "connect-proxy" || (s.Native && len(s.Ups) > 0)) && g.rng.Intn(3) == 0 {
 				sp.Ups = g.subset(plainName, 2)
 			}
+			if g.wide && g.rng.Intn(12) == 0 {
+				sp.TagVIP = 1 + g.rng.Intn(3)
+			}
 			return sp
 		}
 	}
@@ -1987,6 +2076,12 @@ func (g *gen) svcSpec(node string) *SvcSpec {
 	case 5:
 		sp.Kind = "ingress-gateway"
 		sp.Name = g.pick(igwNames)
+	}
+	if g.wide && k <= 2 && g.rng.Intn(10) == 0 {
+		sp.TagVIP = 1 + g.rng.Intn(3)
+	}
+	if g.wide && k == 0 && g.rng.Intn(8) == 0 {
+		sp.Name = extName // the destination's name is also registered as a service
 	}
 	return sp
 }
@@ -2118,6 +2213,9 @@ func (g *gen) conf() *Conf {
 		return c
 	case 2:
 		// a destination is an external service: never a name that is also registered in the catalog
+		if g.wide && g.rng.Intn(3) == 0 {
+			return &Conf{Kind: structs.ServiceDefaults, Name: g.pick(plainName), Dest: g.rng.Intn(3) > 0}
+		}
 		if g.rng.Intn(2) == 0 {
 			return &Conf{Kind: structs.ServiceDefaults, Name: extName, Dest: g.rng.Intn(4) > 0}
 		}
@@ -2149,6 +2247,13 @@ func (g *gen) next() Cmd {
 			break
 		}
 		r -= weights[k]
+	}
+	if g.wide && g.rng.Intn(20) == 0 {
+		c.Kind, c.Key, c.Value = "sysmeta", structs.SystemMetadataVirtualIPsEnabled, "true"
+		if g.rng.Intn(2) == 0 {
+			c.Value = ""
+		}
+		return c
 	}
 	g.peer = ""
 	if g.peers && k <= 1 && g.rng.Intn(5) < 2 {
@@ -2239,6 +2344,9 @@ func (g *gen) next() Cmd {
 			c.Service = vs[g.rng.Intn(len(vs))].Service
 		}
 		c.IPs = g.subset(manualIPs, 2)
+		if g.wide && g.rng.Intn(2) == 0 {
+			c.IPs = append(c.IPs, fmt.Sprintf("240.0.0.%d", 1+g.rng.Intn(3)))
+		}
 	case 6:
 		c.Kind = "coord"
 		c.Node = g.nodeName()
@@ -2444,6 +2552,25 @@ func corpus() map[string][]Cmd {
 			reg(4, "n1", native("s1", "web")),
 			{Kind: "deregister", Idx: 5, Node: "n1", SvcID: "s1"},
 		},
+		// wide stream: a name that is a destination and has an instance; the row's kind is stale after the instance goes
+		"wide-destination-with-instances": {
+			reg(3, "n2", plain("s3", "api")),
+			{Kind: "conf_set", Idx: 4, Conf: &Conf{Kind: structs.TerminatingGateway, Name: "tgw2", Services: []string{"db", "*"}}},
+			{Kind: "conf_set", Idx: 5, Conf: &Conf{Kind: structs.ServiceDefaults, Name: "api", Dest: true}},
+			{Kind: "deregister", Idx: 6, Node: "n2", SvcID: "s3"},
+		},
+		// wide stream: a typical service registered with its own consul-virtual tagged address
+		"wide-client-supplied-virtual-address": {
+			{Kind: "sysmeta", Idx: 2, Key: structs.SystemMetadataVirtualIPsEnabled, Value: "true"},
+			reg(3, "n2", &SvcSpec{ID: "s2", Name: "web", Port: 80, Ups: []string{}, Weights: true, TagVIP: 3}),
+		},
+		// wide stream: a manual address equal to the automatic address of another service
+		"wide-manual-ip-in-auto-range": {
+			{Kind: "sysmeta", Idx: 2, Key: structs.SystemMetadataVirtualIPsEnabled, Value: "true"},
+			reg(3, "n1", proxy("s1", "web-proxy", "web")),
+			reg(4, "n1", proxy("s2", "db-proxy", "db")),
+			{Kind: "manual_vips", Idx: 5, Service: "db", IPs: []string{"240.0.0.1"}},
+		},
 		// regression (10e7cca) for the usage count; the rename itself still leaves a kind-service-name behind
 		"usage-instance-renamed-to-consul": {
 			reg(3, "n1", plain("s1", "web")),
@@ -2587,7 +2714,7 @@ func main() {
 			}
 			h := runScript(-1-i, "corpus:"+k, cp[k], nil, len(cp[k]))
 			setUniverse(lowerUniverse)
-			h.Model = !panicked(&h) && !mixedCase && !strings.HasPrefix(k, "peer-")
+			h.Model = !panicked(&h) && !mixedCase && !strings.HasPrefix(k, "peer-") && !strings.HasPrefix(k, "wide-")
 			j, _ := json.Marshal(&h)
 			w.Write(j)
 			w.WriteByte('\n')
@@ -2629,6 +2756,29 @@ func main() {
 		h.Model = false
 		if len(h.Oracle) > 0 && !*noShrink {
 			sig := "peer/" + sigOf(h.Oracle[0])
+			if shrunkSigs[sig] < 3 {
+				shrunkSigs[sig]++
+				h.Shrunk = shrink(h.Cmds, sigOf(h.Oracle[0]))
+			}
+		}
+		j, _ := json.Marshal(&h)
+		w.Write(j)
+		w.WriteByte('\n')
+	}
+
+	// ---- the oracle-only wide stream: parts of the command universe the Coq model's generator stays out of
+	nw := n / 3
+	wrng := rand.New(rand.NewSource(*seed + 1299709))
+	for i := 0; i < nw; i++ {
+		mix := mixes[i%len(mixes)]
+		ln := 3 + wrng.Intn(28)
+		g := &gen{rng: rand.New(rand.NewSource(wrng.Int63())), mix: mix, wide: true}
+		pre := preamble(wrng.Intn(8) > 0)
+		h := runScript(3*n+i, mix, pre, g, len(pre)+ln)
+		h.Mix = "wide:" + mix
+		h.Model = false
+		if len(h.Oracle) > 0 && !*noShrink {
+			sig := "wide/" + sigOf(h.Oracle[0])
 			if shrunkSigs[sig] < 3 {
 				shrunkSigs[sig]++
 				h.Shrunk = shrink(h.Cmds, sigOf(h.Oracle[0]))
